@@ -882,3 +882,77 @@ func c15r10(rc *core.RC) {
 	})
 	rc.Check(usesLetter && usesDigit, "runtime.isValidTag/letters-and-digits", fd.Pos(), "other characters are classified with unicode.IsLetter and unicode.IsDigit")
 }
+
+// ---- C15.R11 member shadowing compares names exactly ----
+
+// Whether a member of the outer struct hides a promoted member of an embedded struct is decided by
+// runtime.StructTags.ExistsKey, for the encoder (removeFieldsByTags) and the decoder (compileStruct)
+// alike. encoding/json's dominance rule is about identical names: "id" does not hide "ID". The test
+// inside ExistsKey must be the plain equality of the two names.
+func c15r11(rc *core.RC) {
+	p := rc.P
+	fd := p.Func("runtime", "StructTags.ExistsKey")
+	key := "runtime.StructTags.ExistsKey/exact-name-equality"
+	if fd == nil {
+		rc.Unknown(key, token.NoPos, "not found")
+		return
+	}
+	rc.Touch("runtime.StructTags.ExistsKey")
+	info := p.Info(fd)
+	var param types.Object
+	if len(fd.Type.Params.List) == 1 && len(fd.Type.Params.List[0].Names) == 1 {
+		param = info.Defs[fd.Type.Params.List[0].Names[0]]
+	}
+	nTrue, good := 0, true
+	ast.Inspect(fd.Body, func(m ast.Node) bool {
+		r, ok := m.(*ast.ReturnStmt)
+		if !ok || len(r.Results) != 1 {
+			return true
+		}
+		tv := info.Types[r.Results[0]]
+		if tv.Value == nil || tv.Value.String() != "true" {
+			return true
+		}
+		nTrue++
+		// the innermost enclosing condition
+		path := core.PathTo(fd.Body, r)
+		exact := false
+		for i := len(path) - 1; i >= 0; i-- {
+			ifs, isIf := path[i].(*ast.IfStmt)
+			if !isIf {
+				continue
+			}
+			be, isBin := core.Unparen(ifs.Cond).(*ast.BinaryExpr)
+			if isBin && be.Op == token.EQL {
+				l, r2 := core.Unparen(be.X), core.Unparen(be.Y)
+				isKey := func(e ast.Expr) bool { f := core.FieldOf(info, e); return f != nil && f.Name() == "Key" }
+				isParam := func(e ast.Expr) bool { return param != nil && core.ObjOf(info, e) == param }
+				if (isKey(l) && isParam(r2)) || (isKey(r2) && isParam(l)) {
+					exact = true
+				}
+			}
+			break
+		}
+		if !exact {
+			good = false
+		}
+		return true
+	})
+	rc.Check(good && nTrue > 0, key, fd.Pos(), "ExistsKey answers true only under `tag.Key == key` (%d true return(s)): names that differ in letter case do not hide each other", nTrue)
+	// both compilers decide shadowing through it
+	for _, pk := range []string{"encoder", "decoder"} {
+		uses := 0
+		for _, f := range p.Funcs(pk) {
+			if f.Body == nil {
+				continue
+			}
+			ast.Inspect(f.Body, func(m ast.Node) bool {
+				if c, ok := m.(*ast.CallExpr); ok && strings.HasSuffix(core.CalleeName(p.Info(f), c), "StructTags.ExistsKey") {
+					uses++
+				}
+				return true
+			})
+		}
+		rc.Check(uses > 0, "runtime.StructTags.ExistsKey/used-by-"+pk, fd.Pos(), "package %s decides member shadowing through ExistsKey (%d call(s))", pk, uses)
+	}
+}
